@@ -455,10 +455,6 @@ class NetworkService(ModelElement):
             raise
         # interface lists are updated by add_interface()
 
-    def __is_service_port(self, node_id: str) -> bool:
-        _, props = self.topo.graph_model.get_node_properties(node_id=node_id)
-        return props.get(ABCPropertyGraph.PROP_TYPE, None) == str(InterfaceType.ServicePort)
-
     def unpeer(self, ns) -> None:
         """
         Supported primarily in ASMs.
@@ -468,9 +464,11 @@ class NetworkService(ModelElement):
         assert(isinstance(ns, NetworkService))
         # see if they peer
         sp = self.topo.graph_model.get_nodes_on_shortest_path(node_a=self.node_id, node_z=ns.node_id)
-        # peered services are joined by exactly service - ServicePort - link - ServicePort - service;
+        # peered services are joined by exactly service - own port - link - own port - service;
         # any other path (e.g. through a node both are connected to) is not a peering
-        if len(sp) != 5 or not self.__is_service_port(sp[1]) or not self.__is_service_port(sp[-2]):
+        if len(sp) != 5 or \
+                sp[1] not in self.topo.graph_model.get_all_ns_or_link_connection_points(link_id=self.node_id) or \
+                sp[-2] not in self.topo.graph_model.get_all_ns_or_link_connection_points(link_id=ns.node_id):
             raise TopologyException(f"Network services {self.name} and {ns.name} do not peer!")
         # remove ConnectionPoints and link between them
         self.topo.graph_model.remove_cp_and_links(node_id=sp[1])
